@@ -1,6 +1,6 @@
 (* C04 continued: the multi-value lists, the header line, the header block and the message. *)
 From Sipsp Require Import RunLemmas Safe SafeLeaf Harness Ext ExtLeaf ExtNameAddr ExtNested ExtLists ExtAdv OkBounds MsgBounds
-  Sim Capacity SafeMore.
+  Sim Capacity SafeMore ExtCSeq ExtFLine ExtHdrLine HdrLineBounds ExtHeaders.
 From Coq Require Import ZifyN ZifyNat ZifyBool.
 
 (* ---- Contact values ------------------------------------------------------------------------------------------------ *)
@@ -313,3 +313,582 @@ Section RunLevel.
     replace (length pre + N.to_nat (o - i))%nat with (N.to_nat o) by (unfold nnat in *; lia). exact Hinv'.
   Qed.
 End RunLevel.
+
+(* ---- the value parsers under the header line, in one shape ------------------------------------------------------------ *)
+Definition rsafe {B} (R : list byte -> list byte -> N -> B -> res B)
+  (Act : list byte -> N -> B -> Prop) (Qt : N -> B -> Prop) : Prop :=
+  forall pre rest o b, o = nnat (length pre) -> Act pre o b ->
+  match R pre rest o b with
+  | Done n e b' => n <= o + nnat (length rest) /\
+                   (e = EMore -> exists k, (k <= length rest)%nat /\ n = o + nnat k /\ Act (zpre k pre rest) n b') /\
+                   (e = EOk -> o <= n /\ Qt n b')
+  | _ => False
+  end.
+
+(* name-addr values: finished, or satisfying the invariant; "quiet" = may be started anywhere later *)
+Definition act_fb (pre : list byte) (i : N) (s : pfrom) : Prop := fb_parsed s = true \/ fb_inv 0 pre i s.
+Definition qt_fb (i : N) (s : pfrom) : Prop :=
+  fb_parsed s = true \/ (fb_bnd 0 i s /\ fb_state s <> FbNameOrURI /\ fb_params s = pf0).
+Lemma qt_act_fb i o s pre : qt_fb i s -> i <= o -> act_fb pre o s.
+Proof.
+  intros [H|(Hb & Hs & Hp)] Ho; [left; exact H|right].
+  apply (fb_bnd_mono 0 i o s Ho) in Hb. destruct Hb as (H1&H2&H3&H4&H5&H6&H7&H8&H9&H10&H11&H12).
+  unfold fb_inv. rewrite Hp. cbn [po pl]. repeat split; auto; try lia; intros; try contradiction; congruence.
+Qed.
+Lemma qt_fb_mono i o s : qt_fb i s -> i <= o -> qt_fb o s.
+Proof. intros [H|(Hb & Hs & Hp)] Ho; [left; exact H|right]. split; [apply (fb_bnd_mono 0 i); assumption|auto]. Qed.
+
+Lemma fb_run_parsed h pre rest i s : fb_parsed s = true -> run (fb_iter h) pre rest i 0 s = Done i EOk s.
+Proof.
+  intros H. rewrite run_after. unfold fb_iter, fb_parsed in *. destruct (fb_state s); try discriminate. reflexivity.
+Qed.
+
+Lemma rsafe_fb h : rsafe (fun pre rest o b => run (fb_iter h) pre rest o 0 b) act_fb qt_fb.
+Proof.
+  intros pre rest o b Ho [Hp|Hinv].
+  - rewrite (fb_run_parsed h pre rest o b Hp). split; [lia|]. split; [intros E; discriminate|]. intros _. split; [lia|left; exact Hp].
+  - pose proof (fb_run_ok 0 h pre rest o b (conj Ho Hinv)) as H.
+    destruct (run (fb_iter h) pre rest o 0 b) as [n e b'| |] eqn:Er; auto.
+    destruct H as (H1 & H2 & H3 & H4). split; [exact H1|]. split.
+    + intros He. destruct (H3 He) as (k & Hk & Hn & Hi). exists k. split; [exact Hk|]. split; [exact Hn|right; exact Hi].
+    + intros He. destruct (H4 (or_introl He)) as [Hon _]. split; [exact Hon|]. left. exact (fb_run_ok_parsed _ _ _ _ _ _ _ _ Er (or_introl He)).
+Qed.
+
+(* Call-ID, CSeq, unsigned numbers *)
+Definition I_ci (i : N) (s : callid) : Prop := ci_parsed s = true \/ ci_inv i s.
+Definition I_cs (i : N) (s : cseq) : Prop := cs_parsed s = true \/ cs_inv i s.
+Definition I_ui (i : N) (s : uintb) : Prop := pf_end (ui_sval s) <= i /\ (ui_parsed s = true \/ ui_inv i s).
+Lemma I_ci_mono i o s : I_ci i s -> i <= o -> I_ci o s.
+Proof. intros [H|[H1 H2]] Ho; [left; exact H|right]. split; [intros E; specialize (H1 E); lia|lia]. Qed.
+Lemma I_cs_mono i o s : I_cs i s -> i <= o -> I_cs o s.
+Proof. intros [H|H] Ho; [left; exact H|right; apply (cs_inv_mono i); assumption]. Qed.
+Lemma I_ui_mono i o s : I_ui i s -> i <= o -> I_ui o s.
+Proof. intros [Hb [H|[H1 H2]]] Ho; (split; [lia|]); [left; exact H|right]. split; [intros E; specialize (H1 E); lia|lia]. Qed.
+
+Lemma ci_iter_ok_parsed pre rest i s : match ci_iter pre rest i s with Ret _ EOk s' => ci_parsed s' = true | _ => True end.
+Proof.
+  unfold ci_iter, ci_parsed, ci_lws, ci_endOfHdr. destruct (ci_state s) eqn:Est; try (now rewrite Est).
+  all: destruct rest as [|c r]; auto.
+  all: destruct (is_ws c); auto.
+  all: try destruct (pf_set _ _); auto.
+  all: destruct (skipLWS false (c :: r)); auto; cbn; rewrite ?Est; auto.
+  all: try destruct (pf_set _ _); auto.
+Qed.
+Lemma ui_iter_ok_parsed pre rest i s : match ui_iter pre rest i s with Ret _ EOk s' => ui_parsed s' = true | _ => True end.
+Proof.
+  unfold ui_iter, ui_parsed, ui_lws, ui_endOfHdr. destruct (ui_state s) eqn:Est; try (now rewrite Est).
+  all: destruct rest as [|c r]; auto.
+  all: destruct (is_ws c); [|destruct (is_digit c); auto; try destruct (acc32 _ _); auto].
+  all: try destruct (pf_set _ _); auto.
+  all: destruct (skipLWS false (c :: r)); auto; cbn; rewrite ?Est; auto.
+  all: try destruct (pf_set _ _); auto.
+Qed.
+Lemma cs_iter_ok_parsed pre rest i s : match cs_iter pre rest i s with Ret _ EOk s' => cs_parsed s' = true | _ => True end.
+Proof.
+  unfold cs_iter, cs_parsed, cs_lws, cs_endOfHdr, cs_finish. destruct (cs_state s) eqn:Est; try (now rewrite Est).
+  all: destruct rest as [|c r]; auto.
+  all: destruct (is_ws c); [|destruct (is_digit c); auto; try destruct (acc32 _ _); auto].
+  all: repeat (try destruct (pf_set _ _); try destruct (pf_extend _ _)); auto.
+  all: destruct (skipLWS false (c :: r)); auto; cbn; rewrite ?Est; auto.
+  all: repeat (try destruct (pf_set _ _); try destruct (pf_extend _ _)); auto.
+  all: destruct (_ || _); auto; destruct (zget _ _ _ _); auto.
+Qed.
+Lemma run_ok_state {St} (iter : list byte -> list byte -> N -> St -> ires St) (Qp : St -> Prop) :
+  (forall pre rest i s, match iter pre rest i s with Ret _ EOk s' => Qp s' | _ => True end) ->
+  forall rest pre i v next v', run iter pre rest i 0 v = Done next EOk v' -> Qp v'.
+Proof.
+  intros Hit rest pre i v next v' H.
+  pose proof (run_inv iter (fun _ _ _ => True) (fun _ e s' => e = EOk -> Qp s')) as R.
+  specialize (R ltac:(intros p r j s _; pose proof (Hit p r j s) as X;
+                      destruct (iter p r j s) as [| ? [] ?|]; auto; discriminate) rest pre i v I).
+  rewrite H in R. auto.
+Qed.
+
+Lemma run_len pre (rest : list byte) o : o = nnat (length pre) -> nnat (length (rev pre ++ rest)) = o + nnat (length rest).
+Proof. intros ->. rewrite app_length, rev_length. unfold nnat. lia. Qed.
+
+Lemma rsafe_ci : rsafe (fun pre rest o b => run ci_iter pre rest o 0 b) (fun _ i s => I_ci i s) I_ci.
+Proof.
+  intros pre rest o b Ho [Hp|Hinv].
+  - assert (E : run ci_iter pre rest o 0 b = Done o EOk b) by (rewrite run_after; unfold ci_iter, ci_parsed in *; destruct (ci_state b); try discriminate; reflexivity).
+    rewrite E. split; [lia|]. split; [intros X; discriminate|]. intros _. split; [lia|left; exact Hp].
+  - pose proof (callid_safe (rev pre ++ rest) o b) as H. rewrite (run_len pre rest o Ho) in H. specialize (H ltac:(lia) Hinv).
+    unfold parse_callid in H. rewrite <- (run_as_parse ci_iter pre rest o b Ho) in H.
+    destruct (run ci_iter pre rest o 0 b) as [n e b'| |] eqn:Er; auto.
+    destruct H as (H1 & H2 & H3 & H4). split; [exact H2|]. split.
+    + intros _. exists (N.to_nat (n - o)). split; [unfold nnat in *; lia|]. split; [unfold nnat; lia|right; exact H3].
+    + intros He. subst e. split; [exact H1|left]. exact (run_ok_state ci_iter _ ci_iter_ok_parsed _ _ _ _ _ _ Er).
+Qed.
+
+Lemma rsafe_ui : rsafe (fun pre rest o b => run ui_iter pre rest o 0 b) (fun _ i s => I_ui i s) I_ui.
+Proof.
+  intros pre rest o b Ho [Hb [Hp|Hinv]].
+  - assert (E : run ui_iter pre rest o 0 b = Done o EOk b) by (rewrite run_after; unfold ui_iter, ui_parsed in *; destruct (ui_state b); try discriminate; reflexivity).
+    rewrite E. split; [lia|]. split; [intros X; discriminate|]. intros _. split; [lia|split; [exact Hb|left; exact Hp]].
+  - pose proof (uint_safe (rev pre ++ rest) o b) as H. rewrite (run_len pre rest o Ho) in H. specialize (H ltac:(lia) Hinv).
+    unfold parse_uint in H. rewrite <- (run_as_parse ui_iter pre rest o b Ho) in H.
+    destruct (run ui_iter pre rest o 0 b) as [n e b'| |] eqn:Er; auto.
+    destruct H as (H1 & H2 & H3 & H4). split; [exact H2|]. split.
+    + intros _. exists (N.to_nat (n - o)). split; [unfold nnat in *; lia|]. split; [unfold nnat; lia|split; [apply H3|right; exact H3]].
+    + intros He. subst e. split; [exact H1|]. split; [apply H3|left]. exact (run_ok_state ui_iter _ ui_iter_ok_parsed _ _ _ _ _ _ Er).
+Qed.
+
+Lemma rsafe_clen : rsafe ExtHdrLine.clen_R (fun _ i s => I_ui i s) I_ui.
+Proof.
+  intros pre rest o b Ho Hact. pose proof (rsafe_ui pre rest o b Ho Hact) as H. cbv beta in H. unfold ExtHdrLine.clen_R.
+  destruct (run ui_iter pre rest o 0 b) as [n e b'| |] eqn:Er; auto.
+  destruct H as (H1 & H2 & H3). destruct e; try (split; [exact H1|split; [exact H2|exact H3]]).
+  destruct (_ || _); [|split; [exact H1|split; [exact H2|exact H3]]].
+  destruct (H3 eq_refl) as [Hon [Hq _]]. unfold pf_end in Hq. split; [lia|split; intros X; discriminate].
+Qed.
+
+Lemma rsafe_cs : rsafe (fun pre rest o b => run cs_iter pre rest o 0 b) (fun _ i s => I_cs i s) I_cs.
+Proof.
+  intros pre rest o b Ho [Hp|Hinv].
+  - assert (E : run cs_iter pre rest o 0 b = Done o EOk b) by (rewrite run_after; unfold cs_iter, cs_parsed in *; destruct (cs_state b); try discriminate; reflexivity).
+    rewrite E. split; [lia|]. split; [intros X; discriminate|]. intros _. split; [lia|left; exact Hp].
+  - pose proof (cseq_safe (rev pre ++ rest) o b) as H. rewrite (run_len pre rest o Ho) in H. specialize (H ltac:(lia) Hinv).
+    unfold parse_cseq in H. rewrite <- (run_as_parse cs_iter pre rest o b Ho) in H.
+    destruct (run cs_iter pre rest o 0 b) as [n e b'| |] eqn:Er; auto.
+    destruct H as (H1 & H2 & H3 & H4). split; [exact H1|]. split.
+    + intros He. destruct (H3 He) as [Hon Hi]. exists (N.to_nat (n - o)). split; [unfold nnat in *; lia|]. split; [unfold nnat; lia|right; exact Hi].
+    + intros He. subst e. split; [apply H4; reflexivity|left]. exact (run_ok_state cs_iter _ cs_iter_ok_parsed _ _ _ _ _ _ Er).
+Qed.
+
+Lemma rsafe_ct : rsafe (fun pre rest o b => run ct_iter pre rest o 0 b) ct_inv (fun n c => forall pre', ct_inv pre' n c).
+Proof.
+  intros pre rest o b Ho Hinv.
+  pose proof (rl_run ct_iter ct_inv (fun o _ c => pf_end (ct_lasthval c) <= o) (fun n c => forall pre', ct_inv pre' n c)) as H.
+  specialize (H ltac:(intros p r j s Hj HI; pose proof (ct_step_ok p r j s (conj Hj HI)) as X; unfold ct_step_res, ct_P, ct_Q, rl_Q in *;
+                      destruct (ct_iter p r j s); auto; destruct X as [X1 [X2 X3]]; auto) pre rest o b Ho Hinv).
+  destruct (run ct_iter pre rest o 0 b) as [n e b'| |]; auto. destruct H as (H1 & H2 & H3 & H4). auto.
+Qed.
+Lemma rsafe_pa : rsafe (fun pre rest o b => run pa_iter pre rest o 0 b) pa_inv (fun n c => forall pre', pa_inv pre' n c).
+Proof.
+  intros pre rest o b Ho Hinv.
+  pose proof (rl_run pa_iter pa_inv (fun o _ c => pf_end (pa_lasthval c) <= o) (fun n c => forall pre', pa_inv pre' n c)) as H.
+  specialize (H ltac:(intros p r j s Hj HI; pose proof (pa_step_ok p r j s (conj Hj HI)) as X; unfold pa_step_res, pa_P, pa_Q, rl_Q in *;
+                      destruct (pa_iter p r j s); auto; destruct X as [X1 [X2 X3]]; auto) pre rest o b Ho Hinv).
+  destruct (run pa_iter pre rest o 0 b) as [n e b'| |]; auto. destruct H as (H1 & H2 & H3 & H4). auto.
+Qed.
+
+(* ---- the parsed header values as a whole ------------------------------------------------------------------------------ *)
+Definition PV (pre : list byte) (i : N) (hs : hst) (v : phvals) : Prop :=
+  (if hst_eqb hs HFrom then act_fb pre i (pv_from v) else qt_fb i (pv_from v)) /\
+  (if hst_eqb hs HTo then act_fb pre i (pv_to v) else qt_fb i (pv_to v)) /\
+  I_ci i (pv_callid v) /\ I_cs i (pv_cseq v) /\ I_ui i (pv_clen v) /\ I_ui i (pv_expires v) /\
+  (if hst_eqb hs HContact then ct_inv pre i (pv_contacts v) else forall pre', ct_inv pre' i (pv_contacts v)) /\
+  (if hst_eqb hs HPAI then pa_inv pre i (pv_pais v) else forall pre', pa_inv pre' i (pv_pais v)).
+(* nothing in progress *)
+Definition PVq (i : N) (v : phvals) : Prop :=
+  qt_fb i (pv_from v) /\ qt_fb i (pv_to v) /\ I_ci i (pv_callid v) /\ I_cs i (pv_cseq v) /\ I_ui i (pv_clen v) /\
+  I_ui i (pv_expires v) /\ (forall pre', ct_inv pre' i (pv_contacts v)) /\ (forall pre', pa_inv pre' i (pv_pais v)).
+
+Lemma fb_inv_later L pre i o s : fb_inv L pre i s -> i <= o -> fb_inv L pre o s.
+Proof.
+  intros (H1&H2&H3&H4&H5&H6&H7&H8&H9&H10&F1&F2&H11&H12&F3) Ho. unfold fb_inv. repeat split; auto; try lia;
+  intros Hp; specialize (F2 Hp); lia.
+Qed.
+Lemma ct_quiet_mono i o c : (forall pre', ct_inv pre' i c) -> i <= o -> forall pre', ct_inv pre' o c.
+Proof.
+  intros H Ho pre'. destruct (H pre') as (H1 & H2 & H3). split; [apply (fb_inv_later _ _ i); assumption|]. split; [lia|exact H3].
+Qed.
+Lemma pa_quiet_mono i o c : (forall pre', pa_inv pre' i c) -> i <= o -> forall pre', pa_inv pre' o c.
+Proof.
+  intros H Ho pre'. destruct (H pre') as (H1 & H2 & H3). split; [apply (fb_inv_later _ _ i); assumption|]. split; [lia|exact H3].
+Qed.
+Lemma PVq_mono i o v : PVq i v -> i <= o -> PVq o v.
+Proof.
+  intros (H1&H2&H3&H4&H5&H6&H7&H8) Ho. unfold PVq.
+  split; [apply (qt_fb_mono i); assumption|]. split; [apply (qt_fb_mono i); assumption|].
+  split; [apply (I_ci_mono i); assumption|]. split; [apply (I_cs_mono i); assumption|].
+  split; [apply (I_ui_mono i); assumption|]. split; [apply (I_ui_mono i); assumption|].
+  split; [apply (ct_quiet_mono i); assumption|apply (pa_quiet_mono i); assumption].
+Qed.
+Lemma PVq_PV pre i hs v : PVq i v -> PV pre i hs v.
+Proof.
+  intros (H1&H2&H3&H4&H5&H6&H7&H8). unfold PV.
+  split; [destruct (hst_eqb hs HFrom); [apply (qt_act_fb i); [exact H1|lia]|exact H1]|].
+  split; [destruct (hst_eqb hs HTo); [apply (qt_act_fb i); [exact H2|lia]|exact H2]|].
+  split; [exact H3|]. split; [exact H4|]. split; [exact H5|]. split; [exact H6|].
+  split; [destruct (hst_eqb hs HContact); [apply H7|exact H7]|destruct (hst_eqb hs HPAI); [apply H8|exact H8]].
+Qed.
+Lemma PV_nonbody pre i hs v : is_body hs = false -> PV pre i hs v -> PVq i v.
+Proof. intros Hb H. destruct hs; try discriminate; exact H. Qed.
+
+(* ---- the header line ----------------------------------------------------------------------------------------------------- *)
+Definition HInv (pre : list byte) (i : N) (st : hline) : Prop :=
+  pf_end (h_name (hx_h st)) <= i /\ pf_end (h_val (hx_h st)) <= i /\
+  match hx_pv st with
+  | None => is_body (h_state (hx_h st)) = false
+  | Some v => PV pre i (h_state (hx_h st)) v
+  end.
+Definition HQ (pre rest : list byte) (i o : N) (e : err) (st : hline) : Prop :=
+  o <= i + nnat (length rest) /\
+  (e = EMore -> exists k, (k <= length rest)%nat /\ o = i + nnat k /\ HInv (zpre k pre rest) o st) /\
+  (e = EOk -> i <= o /\ match hx_pv st with None => True | Some v' => PVq o v' end).
+
+Lemma hb_comp {B} (R : list byte -> list byte -> N -> B -> res B) sel put valof hs Act Qt :
+  rsafe R Act Qt ->
+  (forall pre rest o st v, hb_run hs pre rest o st v
+     = hb_finish (R pre rest o (sel v)) (st <| hx_h := (hx_h st) <| h_state := hs |> |>) valof (put v)) ->
+  forall pre rest o st v, o = nnat (length pre) -> Act pre o (sel v) ->
+  match hb_run hs pre rest o st v with
+  | Ret n e st' => n <= o + nnat (length rest) /\ exists b', hx_pv st' = Some (put v b') /\
+       h_name (hx_h st') = h_name (hx_h st) /\
+       (e = EMore -> h_state (hx_h st') = hs /\ h_val (hx_h st') = h_val (hx_h st) /\
+                     exists k, (k <= length rest)%nat /\ n = o + nnat k /\ Act (zpre k pre rest) n b') /\
+       (e = EOk -> o <= n /\ Qt n b')
+  | _ => False
+  end.
+Proof.
+  intros HR Hdef pre rest o st v Ho Hact. rewrite Hdef. pose proof (HR pre rest o (sel v) Ho Hact) as H.
+  unfold hb_finish. destruct (R pre rest o (sel v)) as [n e b'| |]; auto.
+  destruct H as (H1 & H2 & H3). split; [exact H1|]. exists b'. split; [reflexivity|].
+  split; [destruct e, st as [[? ? ? ?] ?]; reflexivity|]. split.
+  - intros He. subst e. split; [destruct st as [[? ? ? ?] ?]; reflexivity|]. split; [destruct st as [[? ? ? ?] ?]; reflexivity|]. exact (H2 eq_refl).
+  - exact H3.
+Qed.
+
+Ltac split8 := split; [|split; [|split; [|split; [|split; [|split; [|split]]]]]].
+Ltac pvq_solve o :=
+  first [ assumption
+        | apply (qt_fb_mono o); [assumption|lia]
+        | apply (I_ci_mono o); [assumption|lia]
+        | apply (I_cs_mono o); [assumption|lia]
+        | apply (I_ui_mono o); [assumption|lia]
+        | apply (ct_quiet_mono o); [assumption|lia]
+        | apply (pa_quiet_mono o); [assumption|lia] ].
+
+Lemma hb_run_safe hs pre rest o st v : is_body hs = true -> o = nnat (length pre) ->
+  pf_end (h_name (hx_h st)) <= o -> pf_end (h_val (hx_h st)) <= o -> PV pre o hs v ->
+  match hb_run hs pre rest o st v with
+  | Ret n e st' => HQ pre rest o n e st'
+  | _ => False
+  end.
+Proof.
+  intros Hb Ho Hn Hv Hpv. destruct hs; try discriminate; destruct Hpv as (P1&P2&P3&P4&P5&P6&P7&P8); cbn [hst_eqb] in *.
+  - pose proof (hb_comp (fun pre rest i b => run (fb_iter HdrFrom) pre rest i 0 b) pv_from (fun v b => v <| pv_from := b |>) fb_v HFrom act_fb qt_fb
+                  (rsafe_fb HdrFrom) ltac:(reflexivity) pre rest o st v Ho P1) as H.
+    destruct (hb_run HFrom pre rest o st v) as [|n e st'|]; auto. destruct H as (H1 & b' & Ep & En & H2 & H3).
+    unfold HQ. split; [exact H1|]. split.
+    + intros He. destruct (H2 He) as (Es & Ev & k & Hk & Hnk & Hact). exists k. split; [exact Hk|]. split; [exact Hnk|].
+      unfold HInv. rewrite Ep, En, Es, Ev. split; [unfold nnat in *; lia|]. split; [unfold nnat in *; lia|].
+      destruct v; unfold PV; cbn in *. unfold nnat in *.
+      split8; pvq_solve o.
+    + intros He. destruct (H3 He) as [Hon Hq]. split; [exact Hon|]. rewrite Ep.
+      destruct v; unfold PVq; cbn in *. split8; pvq_solve o.
+  - pose proof (hb_comp (fun pre rest i b => run (fb_iter HdrTo) pre rest i 0 b) pv_to (fun v b => v <| pv_to := b |>) fb_v HTo act_fb qt_fb
+                  (rsafe_fb HdrTo) ltac:(reflexivity) pre rest o st v Ho P2) as H.
+    destruct (hb_run HTo pre rest o st v) as [|n e st'|]; auto. destruct H as (H1 & b' & Ep & En & H2 & H3).
+    unfold HQ. split; [exact H1|]. split.
+    + intros He. destruct (H2 He) as (Es & Ev & k & Hk & Hnk & Hact). exists k. split; [exact Hk|]. split; [exact Hnk|].
+      unfold HInv. rewrite Ep, En, Es, Ev. split; [unfold nnat in *; lia|]. split; [unfold nnat in *; lia|].
+      destruct v; unfold PV; cbn in *. unfold nnat in *. split8; pvq_solve o.
+    + intros He. destruct (H3 He) as [Hon Hq]. split; [exact Hon|]. rewrite Ep.
+      destruct v; unfold PVq; cbn in *. split8; pvq_solve o.
+  - pose proof (hb_comp (fun pre rest i b => run ci_iter pre rest i 0 b) pv_callid (fun v b => v <| pv_callid := b |>) ci_callid HCallID (fun _ i s => I_ci i s) I_ci
+                  rsafe_ci ltac:(reflexivity) pre rest o st v Ho P3) as H.
+    destruct (hb_run HCallID pre rest o st v) as [|n e st'|]; auto. destruct H as (H1 & b' & Ep & En & H2 & H3).
+    unfold HQ. split; [exact H1|]. split.
+    + intros He. destruct (H2 He) as (Es & Ev & k & Hk & Hnk & Hact). exists k. split; [exact Hk|]. split; [exact Hnk|].
+      unfold HInv. rewrite Ep, En, Es, Ev. split; [unfold nnat in *; lia|]. split; [unfold nnat in *; lia|].
+      destruct v; unfold PV; cbn in *. unfold nnat in *. split8; pvq_solve o.
+    + intros He. destruct (H3 He) as [Hon Hq]. split; [exact Hon|]. rewrite Ep.
+      destruct v; unfold PVq; cbn in *. split8; pvq_solve o.
+  - pose proof (hb_comp (fun pre rest i b => run cs_iter pre rest i 0 b) pv_cseq (fun v b => v <| pv_cseq := b |>) cs_v HCSeq (fun _ i s => I_cs i s) I_cs
+                  rsafe_cs ltac:(reflexivity) pre rest o st v Ho P4) as H.
+    destruct (hb_run HCSeq pre rest o st v) as [|n e st'|]; auto. destruct H as (H1 & b' & Ep & En & H2 & H3).
+    unfold HQ. split; [exact H1|]. split.
+    + intros He. destruct (H2 He) as (Es & Ev & k & Hk & Hnk & Hact). exists k. split; [exact Hk|]. split; [exact Hnk|].
+      unfold HInv. rewrite Ep, En, Es, Ev. split; [unfold nnat in *; lia|]. split; [unfold nnat in *; lia|].
+      destruct v; unfold PV; cbn in *. unfold nnat in *. split8; pvq_solve o.
+    + intros He. destruct (H3 He) as [Hon Hq]. split; [exact Hon|]. rewrite Ep.
+      destruct v; unfold PVq; cbn in *. split8; pvq_solve o.
+  - pose proof (hb_comp clen_R pv_clen (fun v b => v <| pv_clen := b |>) ui_sval HCLen (fun _ i s => I_ui i s) I_ui
+                  rsafe_clen ltac:(reflexivity) pre rest o st v Ho P5) as H.
+    destruct (hb_run HCLen pre rest o st v) as [|n e st'|]; auto. destruct H as (H1 & b' & Ep & En & H2 & H3).
+    unfold HQ. split; [exact H1|]. split.
+    + intros He. destruct (H2 He) as (Es & Ev & k & Hk & Hnk & Hact). exists k. split; [exact Hk|]. split; [exact Hnk|].
+      unfold HInv. rewrite Ep, En, Es, Ev. split; [unfold nnat in *; lia|]. split; [unfold nnat in *; lia|].
+      destruct v; unfold PV; cbn in *. unfold nnat in *. split8; pvq_solve o.
+    + intros He. destruct (H3 He) as [Hon Hq]. split; [exact Hon|]. rewrite Ep.
+      destruct v; unfold PVq; cbn in *. split8; pvq_solve o.
+  - pose proof (hb_comp (fun pre rest i b => run ct_iter pre rest i 0 b) pv_contacts (fun v b => v <| pv_contacts := b |>) ct_lasthval HContact ct_inv (fun n c => forall pre', ct_inv pre' n c)
+                  rsafe_ct ltac:(reflexivity) pre rest o st v Ho P7) as H.
+    destruct (hb_run HContact pre rest o st v) as [|n e st'|]; auto. destruct H as (H1 & b' & Ep & En & H2 & H3).
+    unfold HQ. split; [exact H1|]. split.
+    + intros He. destruct (H2 He) as (Es & Ev & k & Hk & Hnk & Hact). exists k. split; [exact Hk|]. split; [exact Hnk|].
+      unfold HInv. rewrite Ep, En, Es, Ev. split; [unfold nnat in *; lia|]. split; [unfold nnat in *; lia|].
+      destruct v; unfold PV; cbn in *. unfold nnat in *. split8; pvq_solve o.
+    + intros He. destruct (H3 He) as [Hon Hq]. split; [exact Hon|]. rewrite Ep.
+      destruct v; unfold PVq; cbn in *. split8; pvq_solve o.
+  - pose proof (hb_comp (fun pre rest i b => run ui_iter pre rest i 0 b) pv_expires (fun v b => v <| pv_expires := b |>) ui_sval HExpires (fun _ i s => I_ui i s) I_ui
+                  rsafe_ui ltac:(reflexivity) pre rest o st v Ho P6) as H.
+    destruct (hb_run HExpires pre rest o st v) as [|n e st'|]; auto. destruct H as (H1 & b' & Ep & En & H2 & H3).
+    unfold HQ. split; [exact H1|]. split.
+    + intros He. destruct (H2 He) as (Es & Ev & k & Hk & Hnk & Hact). exists k. split; [exact Hk|]. split; [exact Hnk|].
+      unfold HInv. rewrite Ep, En, Es, Ev. split; [unfold nnat in *; lia|]. split; [unfold nnat in *; lia|].
+      destruct v; unfold PV; cbn in *. unfold nnat in *. split8; pvq_solve o.
+    + intros He. destruct (H3 He) as [Hon Hq]. split; [exact Hon|]. rewrite Ep.
+      destruct v; unfold PVq; cbn in *. split8; pvq_solve o.
+  - pose proof (hb_comp (fun pre rest i b => run pa_iter pre rest i 0 b) pv_pais (fun v b => v <| pv_pais := b |>) pa_lasthval HPAI pa_inv (fun n c => forall pre', pa_inv pre' n c)
+                  rsafe_pa ltac:(reflexivity) pre rest o st v Ho P8) as H.
+    destruct (hb_run HPAI pre rest o st v) as [|n e st'|]; auto. destruct H as (H1 & b' & Ep & En & H2 & H3).
+    unfold HQ. split; [exact H1|]. split.
+    + intros He. destruct (H2 He) as (Es & Ev & k & Hk & Hnk & Hact). exists k. split; [exact Hk|]. split; [exact Hnk|].
+      unfold HInv. rewrite Ep, En, Es, Ev. split; [unfold nnat in *; lia|]. split; [unfold nnat in *; lia|].
+      destruct v; unfold PV; cbn in *. unfold nnat in *. split8; pvq_solve o.
+    + intros He. destruct (H3 He) as [Hon Hq]. split; [exact Hon|]. rewrite Ep.
+      destruct v; unfold PVq; cbn in *. split8; pvq_solve o.
+Qed.
+
+Definition hl_step_res (pre rest : list byte) (i : N) (r : ires hline) : Prop :=
+  match r with
+  | Next k st' => (0 < k <= length rest)%nat /\ HInv (zpre k pre rest) (i + nnat k) st'
+  | Ret o e st' => HQ pre rest i o e st'
+  | IPanic => False
+  end.
+
+(* a header field changed, no value parser active before or after *)
+Lemma HInv_seth pre pre' i o st h' : HInv pre i st -> is_body (h_state (hx_h st)) = false -> i <= o ->
+  pf_end (h_name h') <= o -> pf_end (h_val h') <= o -> is_body (h_state h') = false ->
+  HInv pre' o (st <| hx_h := h' |>).
+Proof.
+  intros (H1 & H2 & H3) Hb Ho Hn Hv Hb'. destruct st as [h pv]. cbn in *. unfold HInv. cbn.
+  split; [exact Hn|]. split; [exact Hv|]. destruct pv as [v|]; [|exact Hb'].
+  apply PVq_PV. apply (PVq_mono i); [|exact Ho]. exact (PV_nonbody pre i _ v Hb H3).
+Qed.
+
+Lemma HQ_shift pre rest i k n e st' : (k <= length rest)%nat ->
+  HQ (zpre k pre rest) (zrest k rest) (i + nnat k) n e st' -> HQ pre rest i n e st'.
+Proof.
+  intros Hk (H1 & H2 & H3). rewrite zrest_length in H1. unfold HQ. split; [unfold nnat in *; lia|]. split.
+  - intros He. destruct (H2 He) as (k2 & Hk2 & Hn & Hi). rewrite zrest_length in Hk2. exists (k + k2)%nat.
+    split; [lia|]. split; [unfold nnat in *; lia|]. rewrite zpre_zpre in Hi by exact Hk. exact Hi.
+  - intros He. destruct (H3 He) as [Hn Hq]. split; [unfold nnat in *; lia|exact Hq].
+Qed.
+
+Lemma fb_inv_L0 L pre o s : fb_inv L pre o s -> fb_inv 0 pre o s.
+Proof. intros (H1&H2&H3&H4&H5&H6&H7&H8&H9&H10&F1&F2&H11&H12&F3). unfold fb_inv. repeat split; auto; lia. Qed.
+
+Lemma ct_quiet_newhdr o c : (forall pre', ct_inv pre' o c) ->
+  forall pre', ct_inv pre' o (c <| ct_hno := ct_hno c + 1 |> <| ct_lasthval := pf0 |>).
+Proof.
+  intros H pre'. destruct (H pre') as (H1 & H2 & H3). destruct c as [vals n hno mx mn lh last first].
+  change (mkcontacts vals n hno mx mn lh last first <| ct_hno := ct_hno (mkcontacts vals n hno mx mn lh last first) + 1 |> <| ct_lasthval := pf0 |>)
+    with (mkcontacts vals n (hno + 1) mx mn pf0 last first).
+  unfold ct_inv, ct_wf, ct_cap in *. rewrite ct_sel_eq in *. cbn [ct_lasthval ct_vals ct_n ct_last po] in *.
+  split; [apply (fb_inv_L0 _ _ _ _ H1)|]. split; [unfold pf_end; cbn; lia|exact H3].
+Qed.
+Lemma pa_quiet_newhdr o c : (forall pre', pa_inv pre' o c) ->
+  forall pre', pa_inv pre' o (c <| pa_hno := pa_hno c + 1 |> <| pa_lasthval := pf0 |>).
+Proof.
+  intros H pre'. destruct (H pre') as (H1 & H2 & H3). destruct c as [vals n hno lh last].
+  change (mkpais vals n hno lh last <| pa_hno := pa_hno (mkpais vals n hno lh last) + 1 |> <| pa_lasthval := pf0 |>)
+    with (mkpais vals n (hno + 1) pf0 last).
+  unfold pa_inv, pa_wf, pa_cap in *. rewrite pa_sel_proj in *. cbn [pa_lasthval pa_vals pa_n pa_last pa_cap po] in *.
+  split; [apply (fb_inv_L0 _ _ _ _ H1)|]. split; [unfold pf_end; cbn; lia|exact H3].
+Qed.
+
+(* the value parser chosen after the colon gets a quiet object *)
+Lemma hb_pick_safe st o : match hx_pv st with Some v => PVq o v | None => True end ->
+  match hb_pick st with
+  | Some (hs, v') => is_body hs = true /\ PVq o v'
+  | None => True
+  end.
+Proof.
+  unfold hb_pick. destruct (hx_pv st) as [v|]; [|auto]. intros Hq. cbv zeta.
+  repeat match goal with |- context [if ?b then _ else _] => destruct b end; try exact I; try (split; [reflexivity|exact Hq]).
+  - split; [reflexivity|]. destruct Hq as (H1&H2&H3&H4&H5&H6&H7&H8). destruct v; unfold PVq; cbn in *. split8; try assumption. apply ct_quiet_newhdr. exact H7.
+  - split; [reflexivity|]. destruct Hq as (H1&H2&H3&H4&H5&H6&H7&H8). destruct v; unfold PVq; cbn in *. split8; try assumption. apply pa_quiet_newhdr. exact H8.
+Qed.
+
+Lemma colon_safe pre rest i k st : i = nnat (length pre) -> (S k <= length rest)%nat ->
+  pf_end (h_name (hx_h st)) <= i + nnat (S k) -> pf_end (h_val (hx_h st)) <= i + nnat (S k) ->
+  match hx_pv st with Some v => PVq i v | None => True end ->
+  hl_step_res pre rest i (hl_colon pre rest i k st).
+Proof.
+  intros Hi Hk Hname Hval Hpv. rewrite hl_colon_eq. unfold hl_colon'.
+  destruct (zget_some pre rest i (h_name (hx_h st)) ltac:(unfold nnat in *; lia)) as [name ->]. cbv zeta.
+  set (st1 := st <| hx_h := _ |>).
+  assert (Hb1 : is_body (h_state (hx_h st1)) = false) by (subst st1; destruct st as [[? ? ? ?] ?]; reflexivity).
+  assert (Hq1 : match hx_pv st1 with Some v => PVq (i + nnat (S k)) v | None => True end).
+  { subst st1. destruct st as [[? ? ? ?] [v|]]; cbn in *; [|exact I]. apply (PVq_mono i); [exact Hpv|unfold nnat; lia]. }
+  assert (HI1 : HInv (zpre (S k) pre rest) (i + nnat (S k)) st1).
+  { unfold HInv. split; [subst st1; destruct st as [[? ? ? ?] ?]; exact Hname|]. split; [subst st1; destruct st as [[? ? ? ?] ?]; exact Hval|].
+    destruct (hx_pv st1) as [v|]; [apply PVq_PV; exact Hq1|exact Hb1]. }
+  pose proof (hb_pick_safe st1 (i + nnat (S k))) as Hp.
+  specialize (Hp Hq1).
+  destruct (hb_pick st1) as [[hs v']|].
+  - destruct Hp as [Hbody Hq]. replace (i + nnat k + 1) with (i + nnat (S k)) by (unfold nnat; lia).
+    pose proof (hb_run_safe hs (zpre (S k) pre rest) (zrest (S k) rest) (i + nnat (S k)) st1 v' Hbody) as H.
+    destruct HI1 as (N1 & N2 & _).
+    specialize (H ltac:(unfold nnat in *; rewrite zpre_length by lia; lia) N1 N2 (PVq_PV _ _ _ _ Hq)).
+    destruct (hb_run hs _ _ _ st1 v') as [|n e st'|]; try contradiction. unfold hl_step_res. apply (HQ_shift pre rest i (S k)); [exact Hk|exact H].
+  - unfold hl_step_res. split; [lia|exact HI1].
+Qed.
+
+Lemma skipLWS_at_ok_lt : forall (r : list byte) j k, skipLWS_at false r j = LOk k -> (k < j + length r)%nat.
+Proof.
+  intros r. remember (length r) as m eqn:Hm. revert r Hm. induction m as [m IH] using lt_wf_ind. intros r Hm j k.
+  destruct r as [|a r']; cbn [skipLWS_at length]; [discriminate|]. cbn [length] in Hm.
+  destruct (is_sp a); [intros H; apply (IH (length r') ltac:(lia) r' eq_refl) in H; lia|].
+  destruct (is_cr a).
+  { destruct r' as [|b r'']; [discriminate|]. cbn [length] in *. destruct (is_lf b).
+    - destruct r'' as [|e r3]; [discriminate|]. destruct (is_sp e); [|discriminate].
+      intros H. apply (IH (length (e :: r3)) ltac:(cbn [length] in *; lia) (e :: r3) eq_refl) in H. cbn [length] in *. lia.
+    - destruct (is_sp b); [|discriminate]. intros H. apply (IH (length (b :: r'')) ltac:(cbn [length] in *; lia) (b :: r'') eq_refl) in H. cbn [length] in *. lia. }
+  destruct (is_lf a); [|intros E; injection E as <-; lia].
+  destruct r' as [|b r'']; [discriminate|]. destruct (is_sp b); [|discriminate].
+  intros H. apply (IH (length (b :: r'')) ltac:(cbn [length] in *; lia) (b :: r'') eq_refl) in H. cbn [length] in *. lia.
+Qed.
+Lemma skipLWS_ok_lt r k : skipLWS false r = LOk k -> (k < length r)%nat.
+Proof. intros H. apply skipLWS_at_ok_lt in H. lia. Qed.
+
+Lemma HQ_more_here pre rest i st : HInv pre i st -> HQ pre rest i i EMore st.
+Proof.
+  intros H. unfold HQ. split; [lia|]. split; [|intros E; discriminate]. intros _. exists 0%nat.
+  split; [lia|]. split; [unfold nnat; lia|]. exact H.
+Qed.
+Lemma HQ_err pre rest i o e st : o <= i + nnat (length rest) -> e <> EMore -> e <> EOk -> HQ pre rest i o e st.
+Proof. intros Ho H1 H2. unfold HQ. split; [exact Ho|]. split; intros E; congruence. Qed.
+
+(* suspension k bytes further on with only header fields changed *)
+Lemma HQ_more_at pre rest i k st h' : HInv pre i st -> is_body (h_state (hx_h st)) = false -> (k <= length rest)%nat ->
+  pf_end (h_name h') <= i + nnat k -> pf_end (h_val h') <= i + nnat k -> is_body (h_state h') = false ->
+  HQ pre rest i (i + nnat k) EMore (st <| hx_h := h' |>).
+Proof.
+  intros H Hb Hk Hn Hv Hb'. unfold HQ. split; [unfold nnat; lia|]. split; [|intros E; discriminate]. intros _. exists k.
+  split; [exact Hk|]. split; [reflexivity|]. apply (HInv_seth pre _ i _ st); auto. unfold nnat; lia.
+Qed.
+Lemma st_eta (st : hline) : st <| hx_h := hx_h st |> = st.
+Proof. destruct st; reflexivity. Qed.
+
+
+Lemma HInv_pvq pre i st : HInv pre i st -> is_body (h_state (hx_h st)) = false ->
+  match hx_pv st with Some v => PVq i v | None => True end.
+Proof. intros (_ & _ & H3) Hb. destruct (hx_pv st) as [v|]; [exact (PV_nonbody _ _ _ _ Hb H3)|exact I]. Qed.
+
+Lemma name_safe pre rest i st : i = nnat (length pre) -> HInv pre i st -> h_state (hx_h st) = HName ->
+  hl_step_res pre rest i (hl_name_ph pre rest i st).
+Proof.
+  intros Hi Hinv Hs. pose proof Hinv as (H1 & H2 & H3). unfold pf_end in H1.
+  assert (Hb : is_body (h_state (hx_h st)) = false) by now rewrite Hs.
+  pose proof (HInv_pvq pre i st Hinv Hb) as Hq.
+  unfold hl_name_ph. set (k := skipTokenDelim 58 rest).
+  assert (Hk : (k <= length rest)%nat) by apply span_le.
+  destruct (skipn k rest) as [|c r] eqn:Es.
+  - unfold hl_step_res. rewrite <- (st_eta st). apply HQ_more_at; auto; unfold pf_end in *; unfold nnat; lia.
+  - pose proof (skipn_cons_len _ _ _ _ Es) as Hl.
+    destruct (is_sp c).
+    + rewrite pf_extend_some by (unfold nnat; lia). destruct (pf_empty _); [apply HQ_err; [unfold nnat; lia|discriminate|discriminate]|].
+      unfold hl_step_res. split; [lia|]. apply (HInv_seth pre _ i _ st); auto; try (unfold nnat; lia);
+        destruct st as [[? ? ? ?] ?]; unfold pf_end in *; cbn in *; unfold nnat; try lia; reflexivity.
+    + destruct (c =? 58); [|apply HQ_err; [unfold nnat; lia|discriminate|discriminate]].
+      rewrite pf_extend_some by (unfold nnat; lia). destruct (pf_empty _); [apply HQ_err; [unfold nnat; lia|discriminate|discriminate]|].
+      apply colon_safe; [exact Hi|lia| | |]; destruct st as [[? ? ? ?] ?]; unfold pf_end in *; cbn in *; unfold nnat; try lia; exact Hq.
+Qed.
+
+Lemma valend_safe pre rest i k st h1 : HInv pre i st -> is_body (h_state (hx_h st)) = false -> (k <= length rest)%nat ->
+  pf_end (h_name h1) <= i + nnat k -> pf_end (h_val h1) <= i + nnat k -> h_state h1 = HValEnd ->
+  hl_step_res pre rest i (hl_valend (zrest k rest) i k st h1).
+Proof.
+  intros Hinv Hb Hk Hn Hv Hs. unfold hl_valend.
+  pose proof (skipLWS_bounds false (zrest k rest)) as Hbd. rewrite zrest_length in Hbd.
+  destruct (skipLWS false (zrest k rest)) as [k2|k2 crl|k2] eqn:El.
+  - apply skipLWS_ok_lt in El. rewrite zrest_length in El.
+    unfold hl_step_res. split; [lia|]. apply (HInv_seth pre _ i _ st); auto; try (unfold nnat; lia);
+      destruct h1; unfold pf_end in *; cbn in *; unfold nnat in *; try lia; reflexivity.
+  - unfold hl_step_res, HQ. split; [unfold nnat; lia|]. split; [intros E; discriminate|]. intros _. split; [unfold nnat; lia|].
+    destruct st as [h [v|]]; cbn; [|exact I]. apply (PVq_mono i); [exact (HInv_pvq pre i _ Hinv Hb)|unfold nnat; lia].
+  - unfold hl_step_res. replace (i + nnat k + nnat k2) with (i + nnat (k + k2)) by (unfold nnat; lia).
+    apply HQ_more_at; auto; try lia; [unfold nnat in *; lia|unfold nnat in *; lia|now rewrite Hs].
+Qed.
+
+Lemma hl_step_ok pre rest i st : i = nnat (length pre) -> HInv pre i st -> hl_step_res pre rest i (hit pre rest i st).
+Proof.
+  intros Hi Hinv. pose proof Hinv as (H1 & H2 & H3). unfold pf_end in H1, H2.
+  destruct rest as [|c r1]; [cbn; apply HQ_more_here; exact Hinv|].
+  destruct (h_state (hx_h st)) eqn:Hs.
+  - (* HInit *)
+    assert (Hb : is_body (h_state (hx_h st)) = false) by now rewrite Hs.
+    rewrite hit_init by exact Hs.
+    assert (Hfin : forall o, i <= o -> o <= i + nnat (length (c :: r1)) ->
+              hl_step_res pre (c :: r1) i (Ret o EEmpty (st <| hx_h := (hx_h st) <| h_state := HFIN |> |>)))
+      by (intros o Ho1 Ho2; apply HQ_err; [exact Ho2|discriminate|discriminate]).
+    destruct (is_cr c).
+    { destruct r1 as [|d r2]; [apply HQ_more_here; exact Hinv|]. apply Hfin; destruct (is_lf d); unfold nnat; cbn [length]; lia. }
+    destruct (is_lf c); [apply Hfin; unfold nnat; cbn [length]; lia|].
+    unfold pf_set. rewrite N.ltb_irrefl, N.sub_diag.
+    apply name_safe; [exact Hi| |destruct st as [[? ? ? ?] ?]; reflexivity].
+    rewrite <- (N.add_0_r i) at 1. change 0 with (nnat 0). change pre with (zpre 0 pre (c :: r1)).
+    apply (HInv_seth pre _ i _ st); auto; try (unfold nnat; lia); destruct st as [[? ? ? ?] ?]; unfold pf_end in *; cbn in *; unfold nnat; try lia; reflexivity.
+  - rewrite hit_name by exact Hs. apply name_safe; assumption.
+  - (* HNameEnd *)
+    assert (Hb : is_body (h_state (hx_h st)) = false) by now rewrite Hs.
+    rewrite hit_nameend by exact Hs. unfold hl_nameend. set (k := skipWS (c :: r1)).
+    assert (Hk : (k <= length (c :: r1))%nat) by apply span_le.
+    destruct (skipn k (c :: r1)) as [|d r] eqn:Es.
+    + unfold hl_step_res. rewrite <- (st_eta st). apply HQ_more_at; auto; unfold pf_end in *; unfold nnat; try lia; now rewrite Hs.
+    + pose proof (skipn_cons_len _ _ _ _ Es) as Hl.
+      destruct (d =? 58); [|apply HQ_err; [unfold nnat; lia|discriminate|discriminate]].
+      apply colon_safe; [exact Hi|lia|unfold pf_end, nnat; lia|unfold pf_end, nnat; lia|exact (HInv_pvq pre i st Hinv Hb)].
+  - (* HBodyStart *)
+    assert (Hb : is_body (h_state (hx_h st)) = false) by now rewrite Hs.
+    rewrite hit_bstart by exact Hs. unfold hl_bstart.
+    pose proof (skipLWS_bounds false (c :: r1)) as Hbd.
+    destruct (skipLWS false (c :: r1)) as [k|k crl|k] eqn:El.
+    + unfold pf_set. rewrite N.ltb_irrefl, N.sub_diag.
+      assert (Hk : (S k <= length (c :: r1))%nat) by (apply skipLWS_ok_lt in El; lia).
+      unfold hl_step_res. split; [lia|]. apply (HInv_seth pre _ i _ st); auto; try (unfold nnat; lia);
+        destruct st as [[? ? ? ?] ?]; unfold pf_end in *; cbn in *; unfold nnat; try lia; reflexivity.
+    + unfold hl_step_res, HQ. split; [unfold nnat; lia|]. split; [intros E; discriminate|]. intros _. split; [unfold nnat; lia|].
+      destruct st as [h [v|]]; cbn; [|exact I]. apply (PVq_mono i); [exact (HInv_pvq pre i _ Hinv Hb)|unfold nnat; lia].
+    + unfold hl_step_res. rewrite <- (st_eta st). apply HQ_more_at; auto; unfold pf_end in *; unfold nnat; try lia; now rewrite Hs.
+  - (* HVal *)
+    assert (Hb : is_body (h_state (hx_h st)) = false) by now rewrite Hs.
+    rewrite hit_val by exact Hs. unfold hl_val. set (k := skipToken (c :: r1)).
+    assert (Hk : (k <= length (c :: r1))%nat) by apply span_le.
+    destruct (skipn k (c :: r1)) as [|d r] eqn:Es.
+    + unfold hl_step_res. rewrite <- (st_eta st). apply HQ_more_at; auto; unfold pf_end in *; unfold nnat; try lia; now rewrite Hs.
+    + rewrite pf_extend_some by (unfold nnat; lia). rewrite <- Es.
+      apply (valend_safe pre (c :: r1) i k st); auto; destruct (hx_h st); unfold pf_end in *; cbn in *; unfold nnat; try lia; reflexivity.
+  - (* HValEnd *)
+    assert (Hb : is_body (h_state (hx_h st)) = false) by now rewrite Hs.
+    rewrite hit_valend by exact Hs.
+    apply (valend_safe pre (c :: r1) i 0 st); auto; unfold pf_end, nnat; try lia.
+  - destruct (hx_pv st) as [v|] eqn:Hv; [|cbn in H3; discriminate].
+    rewrite (hit_body HFrom _ _ _ _ _ v eq_refl Hs Hv).
+    pose proof (hb_run_safe HFrom pre (c :: r1) i st v eq_refl Hi ltac:(unfold pf_end; lia) ltac:(unfold pf_end; lia) H3) as H.
+    destruct (hb_run HFrom pre (c :: r1) i st v); try contradiction. exact H.
+  - destruct (hx_pv st) as [v|] eqn:Hv; [|cbn in H3; discriminate].
+    rewrite (hit_body HTo _ _ _ _ _ v eq_refl Hs Hv).
+    pose proof (hb_run_safe HTo pre (c :: r1) i st v eq_refl Hi ltac:(unfold pf_end; lia) ltac:(unfold pf_end; lia) H3) as H.
+    destruct (hb_run HTo pre (c :: r1) i st v); try contradiction. exact H.
+  - destruct (hx_pv st) as [v|] eqn:Hv; [|cbn in H3; discriminate].
+    rewrite (hit_body HCallID _ _ _ _ _ v eq_refl Hs Hv).
+    pose proof (hb_run_safe HCallID pre (c :: r1) i st v eq_refl Hi ltac:(unfold pf_end; lia) ltac:(unfold pf_end; lia) H3) as H.
+    destruct (hb_run HCallID pre (c :: r1) i st v); try contradiction. exact H.
+  - destruct (hx_pv st) as [v|] eqn:Hv; [|cbn in H3; discriminate].
+    rewrite (hit_body HCSeq _ _ _ _ _ v eq_refl Hs Hv).
+    pose proof (hb_run_safe HCSeq pre (c :: r1) i st v eq_refl Hi ltac:(unfold pf_end; lia) ltac:(unfold pf_end; lia) H3) as H.
+    destruct (hb_run HCSeq pre (c :: r1) i st v); try contradiction. exact H.
+  - destruct (hx_pv st) as [v|] eqn:Hv; [|cbn in H3; discriminate].
+    rewrite (hit_body HCLen _ _ _ _ _ v eq_refl Hs Hv).
+    pose proof (hb_run_safe HCLen pre (c :: r1) i st v eq_refl Hi ltac:(unfold pf_end; lia) ltac:(unfold pf_end; lia) H3) as H.
+    destruct (hb_run HCLen pre (c :: r1) i st v); try contradiction. exact H.
+  - destruct (hx_pv st) as [v|] eqn:Hv; [|cbn in H3; discriminate].
+    rewrite (hit_body HContact _ _ _ _ _ v eq_refl Hs Hv).
+    pose proof (hb_run_safe HContact pre (c :: r1) i st v eq_refl Hi ltac:(unfold pf_end; lia) ltac:(unfold pf_end; lia) H3) as H.
+    destruct (hb_run HContact pre (c :: r1) i st v); try contradiction. exact H.
+  - destruct (hx_pv st) as [v|] eqn:Hv; [|cbn in H3; discriminate].
+    rewrite (hit_body HExpires _ _ _ _ _ v eq_refl Hs Hv).
+    pose proof (hb_run_safe HExpires pre (c :: r1) i st v eq_refl Hi ltac:(unfold pf_end; lia) ltac:(unfold pf_end; lia) H3) as H.
+    destruct (hb_run HExpires pre (c :: r1) i st v); try contradiction. exact H.
+  - destruct (hx_pv st) as [v|] eqn:Hv; [|cbn in H3; discriminate].
+    rewrite (hit_body HPAI _ _ _ _ _ v eq_refl Hs Hv).
+    pose proof (hb_run_safe HPAI pre (c :: r1) i st v eq_refl Hi ltac:(unfold pf_end; lia) ltac:(unfold pf_end; lia) H3) as H.
+    destruct (hb_run HPAI pre (c :: r1) i st v); try contradiction. exact H.
+  - rewrite hit_fin by exact Hs. apply HQ_err; [unfold nnat; lia|discriminate|discriminate].
+Qed.
